@@ -66,3 +66,32 @@ Definition own_cat (h : string) : cat :=
 
 (* headers the property speaks about: everything except the three with a parser of their own *)
 Definition claimed (h : string) : bool := negb (mem_str h ["**kern"; "**root"; "**mens"]).
+
+(* ------------------------------------------------------------------ C12: one KernSpineImporter over a history.
+   The recogniser answers (parse result, number of syntax errors it reported to the error listener); the importer's
+   state is the number of errors its listener holds.  [fresh] = the listener is replaced at every call (generated
+   flag KKern fresh). *)
+Section KernHistory.
+  Variable T : Type.
+  Variable recog : string -> option T * nat.
+
+  Definition kern_import (fresh : bool) (st : nat) (s : string) : imp_result T * nat :=
+    if String.eqb s "" then (RErr "ValueError", st)       (* _raise_error_if_wrong_input, before anything else *)
+    else
+      let st0 := if fresh then 0 else st in
+      let '(parsed, errs) := recog s in
+      let st1 := st0 + errs in
+      match parsed with
+      | None => (RErr "Exception", st1)                   (* BailErrorStrategy: the parser raises *)
+      | Some t => if Nat.ltb 0 st1 then (RErr "Exception", st1) else (RKept t, st1)
+      end.
+
+  Fixpoint run_history (fresh : bool) (st : nat) (h : list string) : list (imp_result T) :=
+    match h with
+    | [] => []
+    | s :: r => let '(o, st') := kern_import fresh st s in o :: run_history fresh st' r
+    end.
+
+  Definition kern_fresh_flag : option bool :=
+    match assoc_str "KernSpineImporter" importer_shapes with Some (KKern f) => Some f | _ => None end.
+End KernHistory.
